@@ -59,8 +59,9 @@ type EvmClient struct {
 }
 
 type txnDetails struct {
-	nonce   uint64
-	created time.Time
+	nonce     uint64
+	created   time.Time
+	cancelled bool
 }
 
 func New(
@@ -227,9 +228,18 @@ func (c *EvmClient) waitForTxn(txnHash common.Hash, nonce uint64) {
 		receipt := <-res
 		if receipt.Err != nil {
 			c.logger.Warn("failed to get receipt", "err", receipt.Err)
-			if !errors.Is(err, ErrTxnCancelled) {
+			if !errors.Is(receipt.Err, ErrTxnCancelled) {
 				return
 			}
+			// the transaction is resolved: it is no longer pending. Its nonce is
+			// kept so that a late WaitForReceipt caller still learns the outcome.
+			c.mtx.Lock()
+			if d, ok := c.sentTxs[txnHash]; ok {
+				d.cancelled = true
+				c.sentTxs[txnHash] = d
+			}
+			c.mtx.Unlock()
+			return
 		} else {
 			switch receipt.Receipt.Status {
 			case types.ReceiptStatusSuccessful:
@@ -390,6 +400,9 @@ func (c *EvmClient) PendingTxns() []TxnInfo {
 
 	var txns []TxnInfo
 	for hash, d := range c.sentTxs {
+		if d.cancelled {
+			continue
+		}
 		txns = append(txns, TxnInfo{
 			Hash:    hash.Hex(),
 			Nonce:   d.nonce,
